@@ -130,7 +130,16 @@ func PLine(pkg string, sp *dialect.Spec, pi *dialect.PathItem, o *dialect.Op) st
 			dirs = append(dirs, "L"+dialect.Hx(seg))
 		}
 	}
-	return fmt.Sprintf("P %s %s:%s q=%s h=%s p=%s", pkg, o.Method, dialect.Hx(pi.Raw), decls(q), decls(h), strings.Join(dirs, ";"))
+	// the Path struct lists the parameters in declaration order (path item first), not in template order
+	var po []string
+	for _, x := range p {
+		po = append(po, dialect.Hx(x.Name))
+	}
+	pos := "-"
+	if len(po) > 0 {
+		pos = strings.Join(po, ".")
+	}
+	return fmt.Sprintf("P %s %s:%s q=%s h=%s p=%s po=%s", pkg, o.Method, dialect.Hx(pi.Raw), decls(q), decls(h), strings.Join(dirs, ";"), pos)
 }
 
 // ---------------------------------------------------------------------------
@@ -684,6 +693,7 @@ func c05Cases(c runCfg) ([]*scratch.Pkg, []string, map[string]interface{}) {
 			if rng.Intn(3) == 0 {
 				pi.Ops = append(pi.Ops, &dialect.Op{Method: "POST", Responses: []dialect.Response{{Status: "200"}}})
 			}
+			scatterPathParams(rng, pi)
 			sp.Paths = append(sp.Paths, pi)
 		}
 		rc := rcase{Pkg: fmt.Sprintf("p%04d", i), Spec: sp, FlagBase: bf.Flag}
@@ -775,6 +785,30 @@ func c05Cases(c runCfg) ([]*scratch.Pkg, []string, map[string]interface{}) {
 
 // oracleAllSegs: the request may be dispatched to another template than the
 // one it was built from, so every segment gets float and time oracle entries.
+// scatterPathParams: the declaration order of path parameters is unrelated to their order in the template, and a
+// parameter may be declared on the path item or on each operation
+func scatterPathParams(rng *rand.Rand, pi *dialect.PathItem) {
+	var path, rest []dialect.Param
+	for _, p := range pi.Params {
+		if p.In == "path" {
+			path = append(path, p)
+		} else {
+			rest = append(rest, p)
+		}
+	}
+	rng.Shuffle(len(path), func(a, b int) { path[a], path[b] = path[b], path[a] })
+	pi.Params = rest
+	for _, p := range path {
+		if rng.Intn(3) == 0 && len(pi.Ops) > 0 {
+			for _, o := range pi.Ops {
+				o.Params = append([]dialect.Param{p}, o.Params...)
+			}
+		} else {
+			pi.Params = append(pi.Params, p)
+		}
+	}
+}
+
 func oracleAllSegs(rawurl string, seen map[string]bool) []string {
 	var out []string
 	pth := rawurl
